@@ -204,7 +204,12 @@ def sel_job(j):
         from vp import faults as F
         f_bad = next(x for x in c.disks[b"d1"].files if x.sub == b"ab")
         F.damage_data_block(L, c, "d1", f_bad.blocks[0][1], "whole")
+        # a second file marked bad by the same scrub, which the user then REWRITES (new time-stamp): -e / -b speak of files not
+        # modified since the last sync, so this one is outside every selection that contains -e
+        f_bad2 = next(x for x in c.disks[b"d2"].files if x.sub == b"dir/ab")
+        F.damage_data_block(L, c, "d2", f_bad2.blocks[0][1], "whole")
         L.run("scrub", "-p", "full")
+        L.write("d2", "dir/ab", L.gen("rewritten-by-user", 1500))
         L.rm("d1", "dir/a")
         L.rm("d2", "x.t")
         for d_, p_ in (("d1", "lnk"), ("d2", "dir/lnk2"), ("d1", "emptyA"), ("d2", "dir/emptyB")):
@@ -255,6 +260,12 @@ def sel_job(j):
                     ok = ok and not L.exists(dn, sub)
                 if err:
                     ok = ok and any(pos in bad_pos for _, pos, _ in f.blocks)
+                    # ... and still the file of the last sync (same size and time-stamp)
+                    try:
+                        st_ = os.lstat(L.p(dn, sub))
+                        ok = ok and st_.st_size == f.size and st_.st_mtime_ns // 10**9 == f.mtime_sec
+                    except OSError:
+                        ok = False
                 if ok:
                     want.add((dn, sub))
         if processed != want:
